@@ -89,6 +89,7 @@ type c18Server struct {
 	seen   []c18Seen
 	srv    *httptest.Server
 	noRead bool // answer without reading the request body
+	early  bool // challenge at once and go on reading the upload afterwards (a full-duplex HTTP/1.1 server)
 }
 
 func (s *c18Server) ServeHTTP(w http.ResponseWriter, r *http.Request) {
@@ -102,6 +103,19 @@ func (s *c18Server) ServeHTTP(w http.ResponseWriter, r *http.Request) {
 		step = "e"
 	}
 	s.mu.Unlock()
+	if s.early && step == "c" && r.Header.Get("Authorization") == "" {
+		// the challenge goes out while the upload is still arriving; the rest of the upload is read and thrown away
+		rc := http.NewResponseController(w)
+		rc.EnableFullDuplex()
+		w.Header().Set("WWW-Authenticate", "Negotiate")
+		w.WriteHeader(401)
+		rc.Flush()
+		s.mu.Lock()
+		s.seen = append(s.seen, c18Seen{host: r.Host, auth: "", method: r.Method, unread: true})
+		s.mu.Unlock()
+		io.Copy(io.Discard, r.Body)
+		return
+	}
 	var body []byte
 	unread := s.noRead && r.Header.Get("Authorization") == ""
 	if !unread {
@@ -232,13 +246,23 @@ func TestC18(t *testing.T) {
 					script = append(script, finals[rng.Intn(len(finals))])
 				}
 			}
+			// directed: an upload far larger than the socket buffers to a server that challenges without reading it (the
+			// first upload is still under way when the authenticated attempt starts: it gets the whole body all the same)
+			directed := i < 4 && call == 0
+			if directed {
+				script = []string{"c", "f200"}
+			}
 			srv.mu.Lock()
 			srv.script, srv.idx, srv.seen = script, 0, nil
-			srv.noRead = rng.Intn(8) == 0
+			srv.noRead = rng.Intn(8) == 0 || directed
+			srv.early = directed && i >= 2
 			srv.mu.Unlock()
 			// the request
 			host0 := rng.Intn(3)
 			size := []int{0, 0, 17, 4000, 70000, 1500000}[rng.Intn(6)]
+			if directed {
+				host0, size = 0, 24<<20
+			}
 			method := "GET"
 			var body []byte
 			var req *http.Request
@@ -246,7 +270,7 @@ func TestC18(t *testing.T) {
 			if size > 0 {
 				method = []string{"POST", "PUT"}[rng.Intn(2)]
 				body = rng.Bytes(size)
-				if rng.Intn(3) == 0 {
+				if (rng.Intn(3) == 0 && !directed) || (directed && i != 0) {
 					plainReader = true
 					req, _ = http.NewRequest(method, "http://"+c18Hosts[host0]+"/start", io.MultiReader(bytes.NewReader(body)))
 				} else {
@@ -264,7 +288,7 @@ func TestC18(t *testing.T) {
 					derr = fmt.Errorf("panic %s", p)
 				}
 			}()
-			desc := fmt.Sprintf("script=%s host=%d spn=%v body=%d/%s plain=%v noread=%v call=%d", strings.Join(script, ","), host0, explicit, size, method, plainReader, srv.noRead, call)
+			desc := fmt.Sprintf("script=%s host=%d spn=%v body=%d/%s plain=%v noread=%v early=%v call=%d", strings.Join(script, ","), host0, explicit, size, method, plainReader, srv.noRead, srv.early, call)
 			select {
 			case <-done:
 			case <-time.After(60 * time.Second):
